@@ -277,12 +277,26 @@ func (e *Engine) sliceObjOf(fr *Frame, st *State, v ssa.Value, resolve func(ssa.
 func (e *Engine) collectCallWrites(fr *Frame, st *State, fn *ssa.Function, ci ssa.CallInstruction, resolve func(ssa.Value) (Value, bool), addrOf func(ssa.Value) (PtrV, bool, bool), out *[]writeTarget, seen map[*ssa.Function]bool, depth int) {
 	c := ci.Common()
 	// argument resolver: value if known, else pointer through address chains
-	argVal := func(v ssa.Value) (Value, bool) {
+	var argVal func(v ssa.Value) (Value, bool)
+	argVal = func(v ssa.Value) (Value, bool) {
 		if r, ok := resolve(v); ok {
 			return r, true
 		}
 		if p, _, ok := addrOf(v); ok && p.Obj != nil {
 			return p, true
+		}
+		// values boxed or converted inside the loop from values that exist before it: the
+		// object behind them is NOT loop-local (a response allocated once per connection and
+		// wrapped into an interface per request, say)
+		switch x := v.(type) {
+		case *ssa.MakeInterface:
+			if r, ok := argVal(x.X); ok {
+				return IfaceV{Dyn: x.X.Type(), V: r}, true
+			}
+		case *ssa.ChangeType:
+			return argVal(x.X)
+		case *ssa.ChangeInterface:
+			return argVal(x.X)
 		}
 		return nil, false
 	}
